@@ -216,6 +216,30 @@ def e2e_case(rnd, k, mode, col, where):
                 if ident in l:
                     exp.append(("inc.as", i + 1, cols(l, ident), ident))
         exp.append(("main.as", len(lines), cols(lines[-1], "undefAfter"), "undefAfter"))
+    elif mode == "cond":
+        # conditional directives: text in a skipped branch (junk, directives, nested conditionals) must not disturb the
+        # positions reported inside the branch that IS taken (#if / #elseif / #else) nor after the #endif
+        j = rnd.choice([1, 2, 5, 40])
+        junk = lambda n: [rnd.choice(["skipped ) junk (", "", '#include "nonexistent.as"', "#line 7", "-- skipped note",
+                                      "#if NeverInner", "#endif"][:5]) for _ in range(n)]
+        nested = ["#if NeverInner", "inner junk", "#else", "more junk", "#endif"] if rnd.random() < 0.5 else []
+        taken = rnd.choice(["elseif", "else", "if", "elseif-last"])
+        lines = [HEAD.strip(), "#assert Yes", body[0]]
+        if taken == "elseif":
+            lines += ["#if NeverA"] + junk(j) + nested + ["#elseif Yes", body[1], "#else"] + junk(2) + ["#endif"]
+        elif taken == "elseif-last":
+            lines += ["#if NeverA"] + junk(j) + ["#elseif NeverB"] + junk(j) + nested + ["#elseif Yes", body[1], "#endif"]
+        elif taken == "else":
+            lines += ["#if NeverA"] + junk(j) + nested + ["#else", body[1], "#endif"]
+        else:
+            lines += ["#if Yes", body[1], "#else"] + junk(j) + nested + ["#endif"]
+        lines += body[2:2 + k] + [body[2 + k]]
+        lines += ["#if NeverC"] + junk(j) + ["#elseif Yes", body[3 + k], "#endif"]
+        files["main.as"] = "\n".join(lines) + "\n"
+        for i, l in enumerate(lines):
+            for ident in ("undefOne", "undefTwo", "undefThree"):
+                if ident in l:
+                    exp.append(("main.as", i + 1, cols(l, ident), ident))
     else:  # #line renumbering, with or without a file name
         base = rnd.choice([10, 500, 40000])
         named = mode == "hashline-file"
@@ -235,11 +259,13 @@ def run_e2e(rep, tier, P):
     rnd = C.rng("c15-e2e")
     CNO_MAX = 2 ** P["CNO"] - 1
     ks = [0, 1, 2, 100, 16383, 16384] + ([70000] if tier == "thorough" else [20000])
-    modes = ["same", "include", "hashline", "hashline-file"]
+    modes = ["same", "include", "hashline", "hashline-file", "cond"]
     cases = []
     for mode in modes:
         for k in ks:
             cases.append((k, mode, rnd.choice([0, 3, 40])))
+    for _ in range(12 if tier == "quick" else 60):      # every taken-branch variant several times
+        cases.append((rnd.choice([0, 1, 3]), "cond", rnd.choice([0, 3])))
     for col in (100, 16000, 16381, 16382, 16383, 16384, 17045, 19990):
         cases.append((rnd.choice([0, 3]), "same", col))
         if tier == "thorough":
